@@ -20,7 +20,7 @@ Qed.
 Lemma report_eqb_sound a b : report_eqb a b = true -> a = b.
 Proof.
   unfold report_eqb. rewrite !andb_true_iff, !String.eqb_eq, !Z.eqb_eq, N.eqb_eq.
-  intros [[[[[[[[[[[[E1 E2] E3] E4] E5] E6] E7] E8] E9] E10] E11] E12] E13].
+  intros [[[[[[[[[[[[[[E1 E2] E3] E4] E5] E6] E7] E8] E9] E10] E11] E12] E13] E14] E15].
   apply (list_eqb_sound _ diag_full_eqb_sound) in E9. apply Bool.eqb_prop in E13.
   destruct a, b; cbn in *. subst. reflexivity.
 Qed.
